@@ -1,13 +1,16 @@
 (* C06 -- A diff is truthful and complete; it is empty of changes iff the data
    are equal.  Statements only; proofs live in Proofs/DiffBase.v, DiffPos.v,
-   DiffTotal.v, DiffSync.v.  The model (Model/Diff.v) is the Differ AFTER the
-   `fix:` commits listed in docs/C06.md.
+   DiffTotal.v, DiffSync.v, DiffEq.v, DiffKeys.v (the join of two keyed lists
+   modulo Python key equality), DiffCover.v, DiffAcct.v, DiffSym.v, DiffIff.v.
+   The model (Model/Diff.v) is the Differ AFTER the `fix:` commits listed in
+   docs/C06.md.
 
    Vocabulary: [compare_to path_eq cfg L R] is Differ(cfg, L).compare_to(R)
    followed by get_report (as a list in append order); [path_eq] stands for
    YAMLPath.__eq__ and is universally quantified (any function);
    [positional cfg] says the configuration selects positional comparison at
    every list (--arrays position, --aoh position|dpos, the defaults);
+   [uniform cfg am hm] says it selects --arrays am and --aoh hm at every list;
    [wf_doc] says a document is real Python data (unique, untagged scalar keys
    and set members).  [e_loc] is the structural location of an entry (ghost
    field built next to the path text; the text itself is compared with the
@@ -15,11 +18,12 @@
    by the judge).
 
    What is NOT proved here (checked only by the correspondence run and the
-   judge, see docs/C06.md "missing"): leaf coverage (C06_complete), the
-   non-SAME <-> differ equivalence and its reflexivity corollary, and
-   entry-level accounting through mappings. *)
+   judge, see docs/C06.md "missing"): the non-SAME <-> differ equivalence for
+   configurations that mix modes per path ([rules]) or configure identity
+   keys ([keys]); truthfulness outside positional comparison. *)
 From Coq Require Import List Ascii String ZArith NArith Bool Arith Permutation.
-From YP Require Import Outcome PyStr PyVal Doc Diff C06Spec DiffBase DiffPos DiffTotal DiffSync DiffEq.
+From YP Require Import Outcome PyStr PyVal Doc Diff C06Spec DiffBase DiffPos DiffTotal DiffSync DiffEq
+  DiffKeys DiffCover DiffAcct DiffSym DiffKSync DiffIff DiffIffKey.
 Import ListNotations.
 Open Scope string_scope.
 
@@ -128,6 +132,155 @@ Theorem C06_printed_are_differences :
   forall es e, In e (printed_entries false false false es) -> is_different e = true.
 Proof. exact printed_default_are_differences. Qed.
 
+(* ---- completeness (positional comparison): every leaf of either document is
+   covered by an entry at its location or at an ancestor's location
+   (references compared as Python compares keys).  Guard [faces_b]: at no
+   common location does a null scalar face a container with content -- there
+   the statement is false (known finding F3). ---- *)
+Theorem C06_complete_partial :
+  forall path_eq cfg L R es,
+    positional cfg -> wf_doc L = true -> wf_doc R = true -> faces_b L R = true ->
+    compare_to path_eq cfg L R = Ok es -> covers_left L es /\ covers_right R es.
+Proof. exact positional_covers. Qed.
+Print Assumptions C06_complete_partial.
+
+Theorem C06_complete_refuted :
+  exists L R es, wf_doc L = true /\ wf_doc R = true /\
+    compare_to path_eq_real dflt_cfg L R = Ok es /\ ~ covers_left L es.
+Proof. exact complete_refuted_witness. Qed.
+
+(* the computable guard means what it should: no facing null / container pair *)
+Theorem C06_faces_guard_sound : forall L R, faces_b L R = true -> faces_ok L R.
+Proof. exact faces_b_ok. Qed.
+Print Assumptions C06_faces_guard_sound.
+
+(* ---- the diff contains a non-SAME entry exactly when the documents differ
+   as data.  [equiv am hm] (Spec/C06Spec.v) is data equality with sequence
+   order disregarded where the options say so: under --arrays value (and
+   --aoh value) a sequence is a bag of its elements.  All document pairs,
+   every uniform pair of options --arrays position|value x --aoh
+   position|dpos|value, any YAMLPath.__eq__ in the pop step.  Guard: no
+   explicit YAML tags (finding F1).  The identity-key modes follow below
+   (they need the guard of finding F4). ---- *)
+Theorem C06_nonsame_iff_differ_partial :
+  forall path_eq cfg am hm L R es,
+    uniform cfg am hm -> unkeyed hm = true ->
+    wf_doc L = true -> wf_doc R = true -> untagged L = true -> untagged R = true ->
+    compare_to path_eq cfg L R = Ok es ->
+    shows_difference es = negb (equiv am hm L R).
+Proof. exact nonsame_iff_differ. Qed.
+Print Assumptions C06_nonsame_iff_differ_partial.
+
+(* positional comparison: [equiv] is plain data equality *)
+Theorem C06_nonsame_iff_differ_positional_partial :
+  forall path_eq cfg hm L R es,
+    uniform cfg ArrPosition hm -> hm = AohPosition \/ hm = AohDpos ->
+    wf_doc L = true -> wf_doc R = true -> untagged L = true -> untagged R = true ->
+    compare_to path_eq cfg L R = Ok es ->
+    shows_difference es = negb (data_eq L R).
+Proof. exact nonsame_iff_differ_positional. Qed.
+Print Assumptions C06_nonsame_iff_differ_positional_partial.
+
+Theorem C06_equiv_positional_is_data_eq :
+  forall hm, hm = AohPosition \/ hm = AohDpos -> forall a b, equiv ArrPosition hm a b = data_eq a b.
+Proof. exact equiv_positional. Qed.
+
+Theorem C06_nonsame_iff_differ_refuted :
+  exists L R es, wf_doc L = true /\ wf_doc R = true /\ data_eq L R = true /\
+    compare_to path_eq_real dflt_cfg L R = Ok es /\ shows_difference es = true.
+Proof. exact nonsame_iff_refuted_witness. Qed.
+
+(* ---- corollary: a document compared with itself, or with a second load of
+   itself, shows no difference ---- *)
+Theorem C06_reflexive_partial :
+  forall path_eq cfg am hm L es,
+    uniform cfg am hm -> unkeyed hm = true -> wf_doc L = true -> untagged L = true ->
+    compare_to path_eq cfg L L = Ok es -> shows_difference es = false.
+Proof. exact reflexive_no_difference. Qed.
+Print Assumptions C06_reflexive_partial.
+
+Theorem C06_equal_no_difference_partial :
+  forall path_eq cfg am hm L R es,
+    uniform cfg am hm -> unkeyed hm = true ->
+    wf_doc L = true -> wf_doc R = true -> untagged L = true -> untagged R = true ->
+    data_eq L R = true ->
+    compare_to path_eq cfg L R = Ok es -> shows_difference es = false.
+Proof. exact equal_no_difference. Qed.
+Print Assumptions C06_equal_no_difference_partial.
+
+(* ---- EVERY uniform pair of options, the identity-key modes included:
+   --arrays position|value x --aoh position|dpos|value|key|deep, no [keys]
+   configuration.  Under --aoh key|deep [equiv] reads every Array-of-Hashes as
+   a bag of records named by the identity key (the first key of the first
+   right-hand record): as many records, and every left record has a right
+   record with the same identity value that is equal (key) / equivalent
+   (deep).  Guard [kguard] (finding F4): every list pair the comparison reads
+   by identity key is well keyed -- all elements of both lists are records
+   holding a scalar under the identity key, pairwise different -- checked along
+   the pairing the modes define (for position / dpos / value it only descends). ---- *)
+Theorem C06_nonsame_iff_differ_keyed_partial :
+  forall path_eq cfg am hm L R es,
+    uniform cfg am hm -> c_keys cfg = [] ->
+    wf_doc L = true -> wf_doc R = true -> untagged L = true -> untagged R = true ->
+    kguard am hm L R = true ->
+    compare_to path_eq cfg L R = Ok es ->
+    shows_difference es = negb (equiv am hm L R).
+Proof. exact nonsame_iff_differ_keyed. Qed.
+Print Assumptions C06_nonsame_iff_differ_keyed_partial.
+
+Theorem C06_reflexive_keyed_partial :
+  forall path_eq cfg am hm L es,
+    uniform cfg am hm -> c_keys cfg = [] ->
+    wf_doc L = true -> untagged L = true -> kguard am hm L L = true ->
+    compare_to path_eq cfg L L = Ok es -> shows_difference es = false.
+Proof. exact reflexive_keyed. Qed.
+Print Assumptions C06_reflexive_keyed_partial.
+
+(* without a [keys] table synchronize_lods_by_key is the plain match by identity
+   value, and each of its tuples is a matched pair, a left-only or a right-only record *)
+Theorem C06_sync_key_shape :
+  forall idf lhs red,
+    nodup_vals (map (ida idf) lhs) = true -> nodup_vals (map (ida idf) red) = true ->
+    forall p, In p (ksync idf lhs red) -> shape idf lhs red p.
+Proof. exact ksync_shape. Qed.
+Print Assumptions C06_sync_key_shape.
+
+(* --aoh key: a record without the identity key makes a list differ from itself (F4) *)
+Theorem C06_reflexive_refuted :
+  exists cfg d es, uniform cfg ArrPosition AohKey /\ wf_doc d = true /\ untagged d = true /\
+    compare_to path_eq_real cfg d d = Ok es /\ shows_difference es = true.
+Proof. exact reflexive_refuted_witness. Qed.
+
+(* ---- accounting at leaf level, in EVERY mode and configuration (position,
+   value, key, deep, per-path rules and keys, any YAMLPath.__eq__): the leaves
+   of the left document are exactly (as a multiset) the leaves of the left
+   values of the SAME / CHANGE / DELETE entries, those of the right document
+   the leaves of the right values of the SAME / CHANGE / ADD entries -- through
+   mappings, sets, both synchronisers and the pop-a-DELETE-to-make-a-CHANGE
+   step.  Guard [null_guard] (finding F3, in a form that does not depend on
+   which values get paired). ---- *)
+Theorem C06_accounting_partial :
+  forall path_eq cfg L R es,
+    wf_doc L = true -> wf_doc R = true -> null_guard L R = true -> null_guard R L = true ->
+    compare_to path_eq cfg L R = Ok es ->
+    Permutation (left_leaves es) (leaves L) /\ Permutation (right_leaves es) (leaves R).
+Proof. exact accounting_all_modes. Qed.
+Print Assumptions C06_accounting_partial.
+
+Theorem C06_accounting_refuted :
+  exists L R es, wf_doc L = true /\ wf_doc R = true /\
+    compare_to path_eq_real dflt_cfg L R = Ok es /\ ~ Permutation (left_leaves es) (leaves L).
+Proof. exact accounting_refuted_witness. Qed.
+
+(* the join of two keyed lists modulo Python key equality (the split of
+   _diff_dicts / _diff_sets into shared / deleted / added loses nothing) *)
+Theorem C06_keyed_join :
+  forall (A B : Type) (ka : A -> pyval) (kb : B -> pyval) l r,
+    nodup_vals (map kb r) = true ->
+    Permutation l (shared_of ka kb l r ++ dels_of ka kb l r).
+Proof. exact @join_perm. Qed.
+Print Assumptions C06_keyed_join.
+
 (* ---- non-vacuity and the repaired defects, by computation on the model ---- *)
 Definition dflt : dcfg := mkdcfg false [] [] None None None None.
 Definition cfg_of (arrays aoh : string) : dcfg := mkdcfg false [] [] (Some arrays) (Some aoh) None None.
@@ -172,7 +325,7 @@ Proof. vm_compute. reflexivity. Qed.
 
 (* a null facing a container with content: the null leaf is covered by no
    entry (known finding F3; the reason C06_complete needs its guard) *)
-Example C06_complete_refuted :
+Example C06_complete_refuted_acts :
   let L := mp 0 [(lf 1 (PStr "a"), lf 2 PNone)] in
   let R := mp 3 [(lf 1 (PStr "a"), mp 4 [(lf 5 (PStr "b"), lf 6 (PInt 1))])] in
   wf_doc L = true /\ wf_doc R = true /\
@@ -194,3 +347,75 @@ Example C06_reflexive_refuted_key_mode :
   acts (compare_to path_eq_real (cfg_of "position" "key") d d) =
   Ok [(ASame, [RIdx 0]); (ADelete, [RIdx 1]); (AAdd, [RIdx 1])].
 Proof. vm_compute. reflexivity. Qed.
+
+(* ---- the guards of the new theorems are satisfiable by non-trivial pairs ---- *)
+(* nulls and nested containers on both sides, no null facing a container *)
+Example C06_complete_guard_example :
+  let L := mp 0 [(lf 1 (PStr "a"), lf 2 PNone); (lf 3 (PStr "b"), sq 4 [lf 5 (PInt 1); mp 6 [(lf 7 (PStr "c"), lf 8 (PInt 2))]])] in
+  let R := mp 9 [(lf 1 (PStr "a"), lf 10 (PInt 5)); (lf 3 (PStr "b"), sq 11 [lf 5 (PInt 1); mp 12 [(lf 7 (PStr "c"), lf 13 PNone)]]);
+                 (lf 14 (PStr "d"), mp 15 [])] in
+  wf_doc L = true /\ wf_doc R = true /\ faces_b L R = true /\
+  acts (compare_to path_eq_real dflt L R) =
+  Ok [(AChange, [RKey (PStr "a")]); (ASame, [RKey (PStr "b"); RIdx 0]); (AChange, [RKey (PStr "b"); RIdx 1; RKey (PStr "c")]);
+      (AAdd, [RKey (PStr "d")])].
+Proof. vm_compute. repeat split; reflexivity. Qed.
+
+(* reordered records compared under --aoh deep (no null scalars), and flat
+   mappings holding nulls on both sides: the accounting guard holds *)
+Example C06_accounting_guard_example :
+  let L := sq 0 [mp 1 [(lf 2 (PStr "id"), lf 3 (PInt 1)); (lf 4 (PStr "v"), lf 5 (PStr "w"))];
+                 mp 6 [(lf 2 (PStr "id"), lf 7 (PInt 2)); (lf 4 (PStr "v"), lf 8 (PStr "x"))]] in
+  let R := sq 9 [mp 10 [(lf 2 (PStr "id"), lf 7 (PInt 2)); (lf 4 (PStr "v"), lf 8 (PStr "x"))];
+                 mp 12 [(lf 2 (PStr "id"), lf 3 (PInt 1)); (lf 4 (PStr "v"), lf 13 (PStr "y"))]] in
+  wf_doc L = true /\ wf_doc R = true /\ null_guard L R = true /\ null_guard R L = true /\
+  acts (compare_to path_eq_real (cfg_of "position" "deep") L R) =
+  Ok [(ASame, [RIdx 1; RKey (PStr "id")]); (AChange, [RIdx 1; RKey (PStr "v")]);
+      (ASame, [RIdx 0; RKey (PStr "id")]); (ASame, [RIdx 0; RKey (PStr "v")])].
+Proof. vm_compute. repeat split; reflexivity. Qed.
+
+Example C06_accounting_guard_example_nulls :
+  let L := mp 0 [(lf 1 (PStr "a"), lf 2 PNone); (lf 3 (PStr "b"), lf 4 (PInt 1)); (lf 5 (PStr "c"), sq 6 [])] in
+  let R := mp 7 [(lf 1 (PStr "a"), lf 8 (PInt 2)); (lf 3 (PStr "b"), lf 9 PNone); (lf 5 (PStr "c"), lf 10 PNone)] in
+  wf_doc L = true /\ wf_doc R = true /\ null_guard L R = true /\ null_guard R L = true /\
+  acts (compare_to path_eq_real (cfg_of "value" "key") L R) =
+  Ok [(AChange, [RKey (PStr "a")]); (AChange, [RKey (PStr "b")]); (AChange, [RKey (PStr "c")])].
+Proof. vm_compute. repeat split; reflexivity. Qed.
+
+(* value mode: a reordered list is equivalent and shows no difference; uniform configurations exist *)
+Example uniform_value : uniform (cfg_of "value" "value") ArrValue AohValue.
+Proof. split; intros nc; reflexivity. Qed.
+Example uniform_default : uniform dflt ArrPosition AohPosition.
+Proof. split; intros nc; reflexivity. Qed.
+
+Example C06_iff_value_example :
+  let L := mp 0 [(lf 1 (PStr "x"), sq 2 [lf 3 (PInt 1); lf 4 (PInt 2); lf 5 (PInt 3)])] in
+  let R := mp 6 [(lf 1 (PStr "x"), sq 7 [lf 5 (PInt 3); lf 3 (PInt 1); lf 4 (PInt 2)])] in
+  wf_doc L = true /\ wf_doc R = true /\ untagged L = true /\ untagged R = true /\
+  data_eq L R = false /\ equiv ArrValue AohValue L R = true /\
+  omap shows_difference (compare_to path_eq_real (cfg_of "value" "value") L R) = Ok false /\
+  omap shows_difference (compare_to path_eq_real dflt L R) = Ok true.
+Proof. vm_compute. repeat split; reflexivity. Qed.
+
+(* identity-key modes: the guard holds of a non-trivial pair (records reordered,
+   one changed, a nested keyed list), and the model agrees with the equivalence *)
+Example uniform_key : uniform (cfg_of "position" "key") ArrPosition AohKey /\ c_keys (cfg_of "position" "key") = [].
+Proof. split; [split; intros nc; reflexivity | reflexivity]. Qed.
+Example uniform_deep : uniform (cfg_of "position" "deep") ArrPosition AohDeep /\ c_keys (cfg_of "position" "deep") = [].
+Proof. split; [split; intros nc; reflexivity | reflexivity]. Qed.
+
+Example C06_keyed_guard_example :
+  let rcd o i v sub := mp o [(lf 2 (PStr "id"), lf (o + 1)%N (PInt i)); (lf 4 (PStr "v"), lf (o + 2)%N (PStr v));
+                             (lf 5 (PStr "sub"), sq (o + 3)%N sub)] in
+  let s1 := mp 50 [(lf 51 (PStr "n"), lf 52 (PStr "p"))] in
+  let s2 := mp 53 [(lf 51 (PStr "n"), lf 54 (PStr "q"))] in
+  let L := mp 0 [(lf 1 (PStr "r"), sq 10 [rcd 20%N 1%Z "w" [s1; s2]; rcd 30%N 2%Z "x" []])] in
+  let R := mp 6 [(lf 1 (PStr "r"), sq 11 [rcd 40%N 2%Z "x" []; rcd 60%N 1%Z "w" [s2; s1]])] in
+  wf_doc L = true /\ wf_doc R = true /\ untagged L = true /\ untagged R = true /\
+  kguard ArrPosition AohDeep L R = true /\ kguard ArrPosition AohKey L R = true /\ kguard ArrValue AohDeep L R = true /\
+  data_eq L R = false /\
+  equiv ArrPosition AohDeep L R = true /\ equiv ArrPosition AohKey L R = false /\
+  omap shows_difference (compare_to path_eq_real (cfg_of "position" "deep") L R) = Ok false /\
+  omap shows_difference (compare_to path_eq_real (cfg_of "position" "key") L R) = Ok true /\
+  equiv ArrValue AohDeep L R = true /\
+  omap shows_difference (compare_to path_eq_real (cfg_of "value" "deep") L R) = Ok false.
+Proof. vm_compute. repeat split; reflexivity. Qed.
